@@ -158,11 +158,26 @@ pub fn strategy(prop: &'static str, thorough: bool) -> BoxedStrategy<CacheCase> 
             });
             (rq, 1usize..3)
                 .prop_flat_map(move |(rq, nw)| {
-                    let op = prop_oneof![
+                    let nwb = nw as u8;
+                    // 1 case in 4: dispose/unregister notifications among the writes, KEEP_LAST without other limits.
+                    // Whether a notification counts towards the depth is not stated (dust-dds' own unit tests demand
+                    // that a dispose at depth evicts a data sample), so these cases are judged by an invariant only:
+                    // never more than depth data samples per instance, and only from the last depth written ones.
+                    let plain = prop_oneof![
                         6 => write_op(nw as u8, 3, false),
                         1 => any::<bool>().prop_map(read_any),
                     ];
-                    (Just(rq), Just(ws1(nw)), prop::collection::vec(op, 5..max_ops))
+                    let lifecycle = prop_oneof![
+                        8 => write_op(nw as u8, 3, false),
+                        1 => (0..nwb, 0u8..3).prop_map(|(w, inst)| Op::Dispose { w, inst }),
+                        1 => (0..nwb, 0u8..3).prop_map(|(w, inst)| Op::Unregister { w, inst }),
+                        2 => any::<bool>().prop_map(read_any),
+                    ];
+                    let lrq = RQ { keep_last: Some(rq.keep_last.unwrap_or(2)), max_samples: None, mspi: None, ..rq.clone() };
+                    prop_oneof![
+                        3 => (Just(rq), Just(ws1(nw)), prop::collection::vec(plain, 5..max_ops)),
+                        1 => (Just(lrq), Just(ws1(nw)), prop::collection::vec(lifecycle, 5..max_ops)),
+                    ]
                 })
                 .prop_map(move |(rq, writers, ops)| CacheCase { prop: prop.into(), rq, writers, ops, wlim: None })
                 .boxed()
@@ -260,12 +275,18 @@ pub fn strategy(prop: &'static str, thorough: bool) -> BoxedStrategy<CacheCase> 
         "C24" => {
             let mut rq = default_rq.clone();
             rq.exclusive = true;
-            (2usize..4, any::<bool>())
-                .prop_flat_map(move |(nw, autod)| {
+            (2usize..4, any::<bool>(), prop::bool::weighted(0.3))
+                .prop_flat_map(move |(nw, autod, tbf)| {
                     let ws: Vec<WS> = (0..nw).map(|i| WS { strength: (i as i32) * 10, autodispose: autod }).collect();
                     let nwb = nw as u8;
+                    // with a time-based filter (invariant oracle, see oracle_c24_filtered): a sample of the stronger
+                    // writer that the filter drops still makes that writer the owner
+                    let mut rq = rq.clone();
+                    if tbf {
+                        rq.min_sep_ms = 51;
+                    }
                     let op = prop_oneof![
-                        8 => write_op(nwb, 2, false),
+                        8 => write_op(nwb, 2, tbf),
                         1 => (0..nwb, 0u8..2).prop_map(|(w, inst)| Op::Dispose { w, inst }),
                         2 => (0..nwb, 0u8..2).prop_map(|(w, inst)| Op::Unregister { w, inst }),
                         1 => (0..nwb).prop_map(|w| Op::DeleteWriter { w }),
@@ -698,6 +719,10 @@ pub struct Outcome {
     /// C25: seq -> op index at which the sample was written / taken out of the reader
     pub written_at: BTreeMap<u32, usize>,
     pub taken_at: BTreeMap<u32, usize>,
+    /// C24 with a time-based filter: seqs written while a strictly stronger writer was registered for the
+    /// instance (must never be presented), with "an owner of the instance had left before" per seq
+    #[serde(default)]
+    pub must_ignore: BTreeMap<u32, bool>,
 }
 
 /// 5^9 ns: the granularity at which a nanosecond value is exactly representable as an RTPS 2^-32 s
@@ -824,6 +849,10 @@ async fn scenario(c: CacheCase) -> Outcome {
     let mut model = Model::new(&c);
     let mut seq = 0u32;
     let c25 = prop == "C25";
+    // C24 with a time-based filter: no exact model of the filter; life cycle bookkeeping only, invariant oracle
+    let inv24 = prop == "C24" && c.rq.min_sep_ms > 0;
+    // C18 with dispose/unregister among the ops: invariant oracle on the data samples (see the generator)
+    let inv18 = prop == "C18" && c.ops.iter().any(|o| matches!(o, Op::Dispose { .. } | Op::Unregister { .. }));
     let mut classes: BTreeSet<String> = BTreeSet::new();
     let mut all_ops = c.ops.clone();
     all_ops.push(read_any(true));
@@ -850,6 +879,22 @@ async fn scenario(c: CacheCase) -> Outcome {
                 exec::sleep_ms(2).await;
                 out.written.push((*inst, seq, off as i64));
                 out.written_at.insert(seq, opi);
+                if inv18 {
+                    let _ = model.on_write(*w, *inst, seq, (t.sec(), t.nanosec()));
+                    classes.insert("lifecycle_notifications_with_keep_last".into());
+                    continue;
+                }
+                if inv24 {
+                    let stronger_registered = (0..model.ws.len()).any(|w2| {
+                        model.ws[w2].strength > model.ws[*w as usize].strength && model.registered[w2].contains(inst) && !model.deleted[w2]
+                    });
+                    if stronger_registered {
+                        out.must_ignore.insert(seq, model.handover.contains(inst));
+                        classes.insert("ownership_ignored".into());
+                    }
+                    let _ = model.on_write(*w, *inst, seq, (t.sec(), t.nanosec()));
+                    continue;
+                }
                 if !c25 {
                     // Tolerance (Appendix A.4): a KEEP_LAST replacement while the reader sits at max_samples may
                     // be carried out or rejected; follow what the implementation did.
@@ -959,7 +1004,30 @@ async fn scenario(c: CacheCase) -> Outcome {
                         }
                     }
                 };
-                if c25 {
+                if inv18 {
+                    if let (Ok(samples), Some(d)) = (&r, c.rq.keep_last) {
+                        let mut per: BTreeMap<u8, Vec<u32>> = BTreeMap::new();
+                        for s in samples {
+                            if let Some(dt) = &s.data {
+                                per.entry(dt.id).or_default().push(dt.seq);
+                            }
+                        }
+                        for (i, seqs) in per {
+                            let written: Vec<u32> = out.written.iter().filter(|w| w.0 == i).map(|w| w.1).collect();
+                            let recent: Vec<u32> = written.iter().rev().take(d as usize).copied().collect();
+                            if seqs.len() > d as usize {
+                                out.verdict = Some(("C18:history:more-than-depth-data-samples".into(), format!("op #{opi}: KEEP_LAST({d}) reader returned {} data samples of instance {i}: {seqs:?} (history with dispose/unregister notifications)", seqs.len())));
+                                break 'ops;
+                            }
+                            if seqs.iter().any(|q| !recent.contains(q)) || seqs.windows(2).any(|p| p[0] >= p[1]) {
+                                out.verdict = Some(("C18:history:not-the-most-recent-data-samples".into(), format!("op #{opi}: KEEP_LAST({d}) reader returned data samples {seqs:?} of instance {i}; the last {d} written are {recent:?}")));
+                                break 'ops;
+                            }
+                        }
+                    }
+                    continue;
+                }
+                if c25 || inv24 {
                     if let Ok(samples) = &r {
                         for s in samples {
                             if let (Some(d), Some(t)) = (&s.data, s.sample_info.source_timestamp) {
@@ -1367,6 +1435,21 @@ pub fn eval(case: &CacheCase) -> CaseResult {
                 res.harness_error = Some(e.clone());
             } else if prop == "C25" {
                 oracle_c25(case, &out, &mut res);
+            } else if prop == "C24" && case.rq.min_sep_ms > 0 {
+                res.classes = out.classes.clone();
+                res.class("time_based_filter");
+                res.nontrivial = !out.must_ignore.is_empty();
+                for (_, seq, _) in &out.presented {
+                    if let Some(after_owner_left) = out.must_ignore.get(seq) {
+                        let sig = if *after_owner_left {
+                            "C24:ownership:unexpected-sample-from-a-weaker-writer-after-an-owner-left-w"
+                        } else {
+                            "C24:ownership:sample-of-a-weaker-writer-presented:time-based-filter"
+                        };
+                        res.fail(sig.to_string(), format!("EXCLUSIVE reader with TIME_BASED_FILTER presented seq {seq}, written while a strictly stronger writer that had written the instance was still registered for it"));
+                    }
+                }
+                res.info = json!({"ops_done": out.ops_done, "written": out.written.len(), "presented": out.presented.len(), "must_ignore": out.must_ignore.len()});
             } else {
                 if let Some(v) = &out.verdict {
                     res.verdict = Some(v.clone());
@@ -1490,7 +1573,7 @@ pub fn main(ctx: &Ctx) {
         "C21" => "BY_SOURCE_TIMESTAMP reader, 1-2 writers, writes with explicit timestamps (random, equal, ascending, descending), read/take(ANY); per instance the presented order must be non-decreasing source timestamp (ties in arrival order); non-trivial = at least 4 ops executed; distinct = hash of the case",
         "C22" => "histories of write/dispose/unregister (autodispose on/off) from 1-2 writers over 3 instances with read/take(ANY) in between; instance_state, view_state and generation counts of every returned sample compared with the DDS life-cycle model; non-trivial = a dispose or unregister was executed; distinct = hash of the case",
         "C23" => "5 instances, histories of write/dispose/unregister, masked reads that leave instances without matching samples, read_next_instance/take_next_instance with previous handle nil or any instance handle; expected = samples of the least handle > previous with matching samples, NoData iff none; non-trivial = a next_instance call was made; distinct = hash of the case",
-        "C24" => "EXCLUSIVE ownership reader, 2-3 writers with distinct strengths, writes/dispose/unregister/delete_writer and read/take(ANY); model: owner = strongest live writer of the instance, changes from others ignored; non-trivial = a weaker writer's sample was due to be ignored, or an owner unregistered/was deleted; distinct = hash of the case",
+        "C24" => "EXCLUSIVE ownership reader, 2-3 writers with distinct strengths, writes/dispose/unregister/delete_writer and read/take(ANY); model: owner = strongest live writer of the instance, changes from others ignored; in 30% of the cases the reader also has a TIME_BASED_FILTER (51 ticks, explicit timestamps) and the oracle is the invariant that no sample is presented that was written while a strictly stronger writer that had written the instance was still registered for it (a filtered sample still makes its writer the owner); non-trivial = a weaker writer's sample was due to be ignored, or an owner unregistered/was deleted; distinct = hash of the case",
         _ => "reader with TIME_BASED_FILTER minimum_separation in {10,100,250,1000} ms, 1-2 writers, writes with explicit timestamps around the separation, read/take in between; invariants: no two presented samples of an instance closer than the separation, and a sample >= separation away from every other written sample of the instance is presented; non-trivial = two samples closer than the separation were written and something was presented; distinct = hash of the case",
     };
     campaign(
